@@ -172,6 +172,11 @@ pub broadcast axiom fn axiom_str_eq_string_obeys()
     ensures #[trigger] <&str as vstd::std_specs::cmp::PartialEqSpec<String>>::obeys_eq_spec();
 pub broadcast axiom fn axiom_str_eq_string(a: &str, b: String)
     ensures #[trigger] <&str as vstd::std_specs::cmp::PartialEqSpec<String>>::eq_spec(&a, &b) == (a@ == b@);
-pub broadcast group group_str_eq { axiom_str_eq_string_obeys, axiom_str_eq_string }
+/// trusted: `&String == &str` compares the character sequences (std: impl PartialEq<str> for String, through the reference impl)
+pub broadcast axiom fn axiom_stringref_eq_strref_obeys<'a, 'b>()
+    ensures #[trigger] <&'a String as vstd::std_specs::cmp::PartialEqSpec<&'b str>>::obeys_eq_spec();
+pub broadcast axiom fn axiom_stringref_eq_strref<'a, 'b>(a: &'a String, b: &'b str)
+    ensures #[trigger] <&'a String as vstd::std_specs::cmp::PartialEqSpec<&'b str>>::eq_spec(&a, &b) == (a@ == b@);
+pub broadcast group group_str_eq { axiom_str_eq_string_obeys, axiom_str_eq_string, axiom_stringref_eq_strref_obeys, axiom_stringref_eq_strref }
 } // verus!
 } // mod vx_str
